@@ -21,7 +21,7 @@ LEVEL = "proof"
 REQUIRED_THEOREMS = [
     "trace_sorted", "handle_times_strictly_increasing", "handle_times_on_lattice", "handled_state_is_iterate",
     "pending_window_invariant", "served_exactly_once_within_half_step", "frame_count", "frame_count_floor",
-    "frame_count_general", "storage_frame_count", "recorded_frames_are_calls",
+    "frame_count_general", "storage_frame_count", "served_exactly_once_constant_interrupts", "recorded_frames_are_calls",
     "stop_serves_all_due", "final_stop_serves_all_due", "stop_ends_at_stop_time", "stop_reason_reported",
     "all_finalized", "corner_scheduled_time_at_t_end_missed", "extra_frame_not_at_final_time",
     "adaptive_served_exactly", "adaptive_two_trackers_served_early",
